@@ -456,7 +456,7 @@ def _literal_markers(rep, p, mod, ssl):
         elif isinstance(loop, ast.For) and isinstance(loop.target, ast.Tuple) and is_name(loop.target.elts[0], h.id) and isinstance(loop.iter, ast.Call) and dotted(loop.iter.func) == 'enumerate':
             start = loop.iter.args[1] if len(loop.iter.args) > 1 else next((k.value for k in loop.iter.keywords if k.arg == 'start'), None)
             fresh = [n for n in walk_no_nested(ssl) if isinstance(n, ast.Assign) and is_name(n.targets[0], lst)]
-            id_ok = (start is None or const_value(start) == 0) and len(fresh) == 1 and fresh[0].lineno < loop.lineno
+            id_ok = (start is None or const_value(start) == 0) and len(fresh) == 1 and fresh[0].pos < loop.pos
             if not id_ok and start is not None and const_value(start) not in (0, NOCONST):
                 rep.violated('literal ids', loop, 'literal markers are numbered from {} while the literals are stored from position 0'.format(const_value(start)))
                 return
@@ -744,7 +744,7 @@ def rule_pa_litflow(cx, rep, port):
                 if subj is None:
                     continue
                 direct = isinstance(subj, ast.Call) and (call_name(subj) or '').split('.')[-1] == 'combine_string_literals'
-                if direct or (isinstance(subj, ast.Name) and subj.id in comb and not any(isinstance(a_, ast.Assign) and subj.id in _names_of_target(a_.targets[0]) and not (isinstance(a_.value, ast.Call) and (call_name(a_.value) or '').split('.')[-1] == 'combine_string_literals') and a_.lineno < c_.lineno and a_.lineno > min(x.lineno for x in walk_no_nested(g_) if isinstance(x, ast.Assign) and subj.id in _names_of_target(x.targets[0])) for a_ in walk_no_nested(g_))):
+                if direct or (isinstance(subj, ast.Name) and subj.id in comb and not any(isinstance(a_, ast.Assign) and subj.id in _names_of_target(a_.targets[0]) and not (isinstance(a_.value, ast.Call) and (call_name(a_.value) or '').split('.')[-1] == 'combine_string_literals') and a_.pos < c_.pos and a_.pos > min(x.pos for x in walk_no_nested(g_) if isinstance(x, ast.Assign) and subj.id in _names_of_target(x.targets[0])) for a_ in walk_no_nested(g_))):
                     rep.violated('structure after re-insertion in {}'.format(fname), c_, '`{}` takes apart a text in which the string literals were already re-inserted: a `,`, keyword or quote inside a literal is treated as query structure'.format(node_text(c_, 80)))
     # every fragment stored into query_context passes through combine_string_literals
     stores = [n for n in walk_no_nested(sp) if isinstance(n, ast.Assign) and (dotted(n.targets[0]) or '').startswith('query_context.') and dotted(n.targets[0]).split('.')[1] in ('where_expression', 'select_expression', 'update_expressions', 'sort_key_expression', 'aggregation_key_expression', 'variables_init_code')]
@@ -752,7 +752,7 @@ def rule_pa_litflow(cx, rep, port):
         v = s.value
         ok = 'combine_string_literals' in node_text(v, 400)
         if not ok and isinstance(v, ast.Name):
-            defs = [n for n in walk_no_nested(sp) if isinstance(n, ast.Assign) and any(v.id in names_in(t) for t in n.targets) and n.lineno < s.lineno]
+            defs = [n for n in walk_no_nested(sp) if isinstance(n, ast.Assign) and any(v.id in names_in(t) for t in n.targets) and n.pos < s.pos]
             ok = any('combine_string_literals' in node_text(d.value, 400) or 'translate_except_expression' in node_text(d.value, 400) for d in defs)
         rep.decide(ok, 'recombination of {}'.format(dotted(s.targets[0])), s, 'literals are re-inserted before the fragment is stored', 'the fragment stored in {} never gets its string literals re-inserted: markers would reach the generated code'.format(dotted(s.targets[0])))
     rep.require_count('context fragments', len(stores), 6, sp)
@@ -1005,7 +1005,7 @@ def rule_pa_top(cx, rep, port):
     rep.decide(len(sd) == 1 and '(COUNT)?' in sd[0].pattern, 'DISTINCT pattern', sd[0].node if sd else sa, 'DISTINCT optionally followed by COUNT', 'DISTINCT pattern changed')
     # TOP is parsed before DISTINCT
     if sites and sd:
-        rep.decide(sites[0].node.lineno < sd[0].node.lineno, 'TOP before DISTINCT', sa, 'TOP n DISTINCT ... order', 'TOP is no longer parsed before DISTINCT')
+        rep.decide(sites[0].node.pos < sd[0].node.pos, 'TOP before DISTINCT', sa, 'TOP n DISTINCT ... order', 'TOP is no longer parsed before DISTINCT')
 
 
 def rule_pa_asc(cx, rep, port):
@@ -1081,7 +1081,7 @@ def rule_pa_asc(cx, rep, port):
         else:
             rep.decide(verdict, 'reverse flag', b, 'reverse = True iff a trailing DESC was removed ({} path(s))'.format(n_paths), 'the reverse flag is no longer "True iff a trailing DESC was removed": ' + why)
     if asc and desc:
-        rep.decide(asc[0].node.lineno < desc[0].node.lineno, 'ASC before DESC', b, 'ASC removal precedes the DESC test', 'order of ASC/DESC handling changed')
+        rep.decide(asc[0].node.pos < desc[0].node.pos, 'ASC before DESC', b, 'ASC removal precedes the DESC test', 'order of ASC/DESC handling changed')
 
 
 def rule_pa_redund(cx, rep, port):
@@ -1256,7 +1256,7 @@ def rule_pa_cleanorder(cx, rep, port):
     recv = strips[0].func.value
     joined = any(isinstance(x, ast.Call) and isinstance(x.func, ast.Attribute) and x.func.attr == 'join' for x in ast.walk(recv))
     if not joined and isinstance(recv, ast.Name):
-        defs = [n for n in walk_no_nested(cq) if isinstance(n, ast.Assign) and is_name(n.targets[0], recv.id) and n.lineno < strips[0].lineno]
+        defs = [n for n in walk_no_nested(cq) if isinstance(n, ast.Assign) and is_name(n.targets[0], recv.id) and n.pos < strips[0].pos]
         joined = bool(defs) and any(isinstance(x, ast.Call) and isinstance(x.func, ast.Attribute) and x.func.attr == 'join' for x in ast.walk(defs[-1].value))
     rep.decide(joined, 'semicolon strip', strips[0], 'the semicolon is stripped from the joined, comment-free text', 'the trailing semicolon is stripped before comment lines are removed: a query that ends with `;` followed by comment lines keeps its semicolon')
     # comment stripping and empty-line dropping happen per line, before joining
